@@ -46,22 +46,27 @@ class RecModel(torch.nn.Module):
         self.log.append({"op": "fwd", "mode": "train" if self.training else "eval", "grad": torch.is_grad_enabled(), "rows": x.size(0)})
         return torch.tanh(self.lin(x))
 
-    def train(self, mode: bool = True):  # called through Hedger.train() / Hedger.eval()
-        self.log.append({"op": "Train" if mode else "Eval"})
-        return super().train(mode)
 
 
 class LoggingPrimary(ScriptedPrimary):
     def __init__(self, script, log, **kw):
         super().__init__(script, **kw)
         self.log = log
+        self.holder: Dict[str, Any] = {}
 
     def simulate(self, n_paths: int = 1, time_horizon: float = 1.0, init_state: Any = None) -> None:
         super().simulate(n_paths, time_horizon, init_state)
         # the scripted draw has its own number of paths: register only the first n_paths rows
         for name, b in list(self.named_buffers()):
             self.register_buffer(name, b[:n_paths].clone())
-        self.log.append({"op": "Simulate", "n": n_paths, "init": "default" if init_state is None else "custom"})
+        self.log.append({"op": "Simulate", "n": n_paths, "init": "default" if init_state is None else "custom", "clear": self.grads_clear()})
+
+    def grads_clear(self) -> bool:
+        """Effect of zero_grad, observed: every gradient the optimiser owns is None or zero right now."""
+        opt = self.holder.get("opt")
+        if opt is None:
+            return True
+        return all(p.grad is None or not bool(p.grad.ne(0).any()) for g in opt.param_groups for p in g["params"])
 
 
 def make_script(rng: random.Random, draws: int) -> List[Dict[str, torch.Tensor]]:
@@ -93,6 +98,11 @@ def phash(model: torch.nn.Module) -> str:
     return h.hexdigest()[:12]
 
 
+def owned(hedger, model, cfg):
+    """Parameters handed to an optimiser INSTANCE: the model's, or (extra) all of the hedger's incl. the criterion's."""
+    return list(hedger.parameters()) if cfg.get("extra") else list(model.parameters())
+
+
 def run_fit(cfg: Dict[str, Any], seed: int, feats, criterion_fn) -> Dict[str, Any]:
     """One real fit() run with recording doubles; returns the event trace and the observable outcome."""
     rng = random.Random(seed)
@@ -101,22 +111,19 @@ def run_fit(cfg: Dict[str, Any], seed: int, feats, criterion_fn) -> Dict[str, An
     log: List[Any] = []
     stock, deriv, model, hedger = build(cfg, script, log, feats, criterion_fn())
     init_state = None if cfg["init"] == "default" else (1.25,)
-    if not cfg["lazy"]:
-        pass
     vers: Dict[str, int] = {}
 
     def ver() -> int:
         # a lazy (not yet materialised) parameter set and its first materialisation are the same version 0:
         # materialising creates the parameters, it does not update them
-        if any(isinstance(p, torch.nn.parameter.UninitializedParameter) for p in model.parameters()):
+        if any(isinstance(p, torch.nn.parameter.UninitializedParameter) for p in hedger.parameters()):
             return 0
-        h = phash(model)
+        h = phash(hedger)
         if h not in vers:
             vers[h] = len(vers)
         return vers[h]
 
-    # parameter version stamped on every event as it happens
-    class Stamped(list):
+    class Stamped(list):            # parameter version stamped on every event as it happens
         def append(self, ev):  # type: ignore[override]
             ev["pver"] = ver()
             super().append(ev)
@@ -126,6 +133,7 @@ def run_fit(cfg: Dict[str, Any], seed: int, feats, criterion_fn) -> Dict[str, An
     class BoundSGD(RecordingSGD):
         def __init__(self, params, **kw):
             super().__init__(params, lr=2.0 ** -3, log=slog)
+            stock.holder["opt"] = self
 
     if cfg["optclass"]:
         optimizer: Any = BoundSGD
@@ -135,7 +143,9 @@ def run_fit(cfg: Dict[str, Any], seed: int, feats, criterion_fn) -> Dict[str, An
             hedger.compute_pl(deriv)
             slog.clear(); vers.clear(); stock.calls.clear()
             stock.pos = 0
-        optimizer = BoundSGD(model.parameters())
+        optimizer = BoundSGD(owned(hedger, model, cfg))
+    if cfg.get("pre_eval"):
+        hedger.eval()              # history: the hedger was used for pricing before this fit()
     vers.clear()
     ver()
     history = hedger.fit(deriv, n_epochs=cfg["k"], n_paths=cfg["n"], n_times=cfg["ntimes"], optimizer=optimizer,
@@ -148,19 +158,18 @@ def run_fit(cfg: Dict[str, Any], seed: int, feats, criterion_fn) -> Dict[str, An
                     events[-1]["mode"] = "mixed"
                 continue
             events.append({"op": "Forward", "mode": ev["mode"], "grad": ev["grad"], "pver": ev["pver"], "_open": True})
-        else:
+        elif ev["op"] in ("Simulate", "OptStep"):
             for e in events:
                 e.pop("_open", None)
-            e2 = {k: v for k, v in ev.items() if k in ("op", "n", "init", "pver")}
-            events.append(e2)
+            events.append({k: v for k, v in ev.items() if k in ("op", "n", "init", "clear", "pver")})
+        # zero_grad calls of the recording optimiser are not events: their effect is the `clear` flag of Simulate
     for e in events:
         e.pop("_open", None)
     events.append({"op": "FitEnd", "hist": -1 if history is None else len(history), "pver": ver()})
-    # keep only the shape TLC needs
-    for e in events:
-        e.setdefault("n", 0); e.setdefault("init", "-"); e.setdefault("mode", "-"); e.setdefault("grad", False); e.setdefault("hist", 0)
+    for e in events:               # keep only the shape TLC needs
+        e.setdefault("n", 0); e.setdefault("init", "-"); e.setdefault("mode", "-"); e.setdefault("grad", False); e.setdefault("hist", 0); e.setdefault("clear", True)
     calls = list(stock.calls)
-    return {"cfg": cfg, "events": events, "history": history, "params": [p.detach().clone() for p in model.parameters()],
+    return {"cfg": cfg, "events": events, "history": history, "params": [p.detach().clone() for p in hedger.parameters()],
             "script": script, "sim_calls": calls}
 
 
@@ -174,7 +183,7 @@ def reference_loop(cfg: Dict[str, Any], script, feats, criterion_fn) -> Tuple[Li
         hedger.compute_pl(deriv)
         if not cfg["optclass"]:
             stock.pos = 0
-    opt = torch.optim.SGD(model.parameters(), lr=2.0 ** -3)
+    opt = torch.optim.SGD(list(model.parameters()) if cfg["optclass"] else owned(hedger, model, cfg), lr=2.0 ** -3)
     history: List[float] = []
     for _ in range(cfg["k"]):
         hedger.train()
@@ -191,7 +200,7 @@ def reference_loop(cfg: Dict[str, Any], script, feats, criterion_fn) -> Tuple[Li
                     deriv.simulate(n_paths=cfg["n"], init_state=init_state)
                     vals.append(hedger.criterion(hedger.compute_portfolio(deriv), deriv.payoff()))
                 history.append(torch.stack(vals).mean(dim=0).item() if cfg["ntimes"] > 1 else vals[0].item())
-    return [p.detach().clone() for p in model.parameters()], (history if cfg["validation"] else None)
+    return [p.detach().clone() for p in hedger.parameters()], (history if cfg["validation"] else None)
 
 
 def validate(ctx: Ctx, traces: List[Dict[str, Any]], tag: str) -> List[Tuple[int, int, int]]:
@@ -247,14 +256,23 @@ def check(ctx: Ctx) -> None:
         if mc.actions.get(a, [0, 0])[1] == 0:
             raise MachineryError(f"Fit.tla: action {a} never taken")
     ks = (0, 1, 2, 3) if ctx.tier == "thorough" else (0, 1, 3)
-    cfgs = [{"k": k, "n": n, "ntimes": nt, "validation": v, "optclass": oc, "lazy": lz, "init": ini}
-            for k in ks for n in (2, 3) for nt in (1, 2, 3) for v in (True, False) for oc in (True, False) for lz in (True, False) for ini in ("default", "custom")]
+    cfgs = [{"k": k, "n": n, "ntimes": nt, "validation": v, "optclass": oc, "lazy": lz, "init": ini, "pre_eval": (i % 3 == 1), "extra": False}
+            for i, (k, n, nt, v, oc, lz, ini) in enumerate(itertools.product(ks, (2, 3), (1, 2, 3), (True, False), (True, False), (True, False), ("default", "custom")))]
+    # the optimiser instance also owns a parameter outside the model: the learnable w of an OCE criterion
+    extra_cfgs = [{"k": k, "n": 3, "ntimes": nt, "validation": v, "optclass": False, "lazy": False, "init": "default", "pre_eval": pe, "extra": True}
+                  for k in (1, 2, 3) for nt in (1, 2) for v in (True, False) for pe in (False, True)]
     setups = [(["moneyness", "time_to_maturity", "prev_hedge"], lambda: EntropicRiskMeasure(0.5)),
               (["moneyness", "time_to_maturity", "volatility"], lambda: ExpectedShortfall(0.5)),
               (["log_moneyness", "time_to_maturity", "volatility"], lambda: torch.nn.MSELoss())]
+    from pfhedge.nn.modules.loss import OCE
+
+    def oce():
+        return OCE(lambda z: z - z.square() / 8)
     traces = []
-    for i, cfg in enumerate(cfgs):
+    for i, cfg in enumerate(cfgs + extra_cfgs):
         feats, crit = setups[i % len(setups)]
+        if cfg["extra"]:
+            crit = oce
         try:
             t = run_fit(cfg, ctx.seed * 1000 + i, feats, crit)
         except MachineryError:
@@ -262,6 +280,8 @@ def check(ctx: Ctx) -> None:
         t["setup"] = i % len(setups)
         traces.append(t)
         ctx.count(json.dumps(cfg, sort_keys=True), n=1)
+        if cfg["extra"] and cfg["optclass"]:
+            continue
         # ---- reference loop: same parameters, same history, same simulate arguments
         ref_params, ref_hist = reference_loop(cfg, t["script"], feats, crit)
         if not all(torch.equal(a, b) for a, b in zip(t["params"], ref_params)):
@@ -283,36 +303,35 @@ def check(ctx: Ctx) -> None:
             t = traces[i - 1]
             ev = t["events"][reached - 1] if reached - 1 < len(t["events"]) else {"op": "end"}
             ctx.violation(f"fit:protocol:{ev['op']}", f"recorded fit() run is not a behaviour of the protocol automaton: event #{reached} ({ev['op']}) is not enabled / has unexpected arguments",
-                          {"cfg": t["cfg"], "events_up_to": [[e["op"], e["n"], e["init"], e["mode"], e["grad"], e["pver"]] for e in t["events"][: reached]]})
+                          {"cfg": t["cfg"], "events_up_to": [[e["op"], e["n"], e["init"], e["clear"], e["mode"], e["grad"], e["pver"]] for e in t["events"][: reached]]})
     ctx.sample({"fit_trace": {"cfg": traces[5]["cfg"], "events": traces[5]["events"][:14]}})
     ctx.sample({"fit_trace": {"cfg": traces[-1]["cfg"], "events": traces[-1]["events"][:10]}})
     real_primary_seeded(ctx)
     # ---- binding demonstration (synthetic, independent of /repo): the canonical behaviour of the automaton is accepted,
     # and dropping ZeroGrad in the second epoch / validating in train mode / an extra optimiser step is rejected
-    cfg = {"k": 2, "n": 2, "ntimes": 2, "validation": True, "optclass": False, "lazy": False, "init": "default"}
+    cfg = {"k": 2, "n": 2, "ntimes": 2, "validation": True, "optclass": False, "lazy": False, "init": "default", "pre_eval": False, "extra": False}
     def canon() -> List[Dict[str, Any]]:
         ev: List[Dict[str, Any]] = []
         pv = 0
         for _ in range(2):
-            ev += [{"op": "Train"}, {"op": "ZeroGrad"}, {"op": "Simulate", "n": 2, "init": "default"}, {"op": "Forward", "mode": "train", "grad": True}]
-            for e in ev[-4:]:
-                e["pver"] = pv
+            ev += [{"op": "Simulate", "n": 2, "init": "default", "clear": True, "pver": pv}, {"op": "Forward", "mode": "train", "grad": True, "pver": pv}]
             pv += 1
-            ev += [{"op": "OptStep", "pver": pv}, {"op": "Eval", "pver": pv}]
+            ev += [{"op": "OptStep", "pver": pv}]
             for _ in range(2):
-                ev += [{"op": "Simulate", "n": 2, "init": "default", "pver": pv}, {"op": "Forward", "mode": "eval", "grad": False, "pver": pv}]
+                ev += [{"op": "Simulate", "n": 2, "init": "default", "clear": False, "pver": pv}, {"op": "Forward", "mode": "eval", "grad": False, "pver": pv}]
         ev.append({"op": "FitEnd", "hist": 2, "pver": pv})
         for e in ev:
-            e.setdefault("n", 0); e.setdefault("init", "-"); e.setdefault("mode", "-"); e.setdefault("grad", False); e.setdefault("hist", 0)
+            e.setdefault("n", 0); e.setdefault("init", "-"); e.setdefault("mode", "-"); e.setdefault("grad", False); e.setdefault("hist", 0); e.setdefault("clear", True)
         return ev
     good = {"cfg": cfg, "events": canon()}
-    no_zero = {"cfg": cfg, "events": [e for i, e in enumerate(canon()) if not (e["op"] == "ZeroGrad" and i > 4)]}
+    no_zero = {"cfg": cfg, "events": canon()}
+    [e for e in no_zero["events"] if e["op"] == "Simulate" and e["clear"]][1]["clear"] = False      # gradients not cleared before the 2nd training batch
     wrong_mode = {"cfg": cfg, "events": canon()}
     next(e for e in wrong_mode["events"] if e["op"] == "Forward" and e["mode"] == "eval")["mode"] = "train"
     grad_on = {"cfg": cfg, "events": canon()}
     next(e for e in grad_on["events"] if e["op"] == "Forward" and e["mode"] == "eval")["grad"] = True
     sneaky = {"cfg": cfg, "events": canon()}
-    next(e for e in sneaky["events"] if e["op"] == "Eval")["pver"] += 1      # parameters changed outside the optimiser step
+    [e for e in sneaky["events"] if e["op"] == "Simulate"][1]["pver"] += 1      # parameters changed outside the optimiser step
     v = validate(ctx, [good, no_zero, wrong_mode, grad_on, sneaky], "selftest")
     ctx.selftest("the canonical protocol behaviour is accepted", v[0][1] == v[0][2])
     ctx.selftest("a run without zero_grad in the second epoch is rejected", v[1][1] != v[1][2])
@@ -322,7 +341,8 @@ def check(ctx: Ctx) -> None:
     ctx.exhaustive = True
     ctx.rule = ("every configuration (k in 0,1,3 [thorough 0..3] x n_paths 2,3 x n_times 1..3 x validation x optimiser class/instance x lazy x init_state) run on the real fit() "
                 "with recording doubles and validated by FitTrace.tla; each compared with an explicit reference loop; distinct = distinct configuration")
-    ctx.assumptions += ["the constructed optimiser receives model.parameters(): a parametrised criterion (OCE) is not trained - modelled as what the code does",
+    ctx.assumptions += ["train()/eval()/zero_grad()/backward() are not events: their EFFECT is observed (mode and grad flags at every forward, all optimiser-owned gradients clear at the training simulate)",
+                        "the constructed optimiser receives model.parameters(): a parametrised criterion (OCE) is not trained - modelled as what the code does",
                         "Backward has no observable event (it is inferred between Forward and OptStep)"]
 
 
